@@ -21,7 +21,10 @@ use std::collections::hash_map::HashMap;
 use std::io;
 use std::sync::mpsc::TryRecvError;
 use std::thread::{Builder, JoinHandle};
+#[cfg(not(amiquip_verif))]
 use std::time::{Duration, Instant};
+#[cfg(amiquip_verif)]
+use {crate::verif::clock::Instant, std::time::Duration};
 
 #[cfg(feature = "native-tls")]
 use crate::stream::HandshakeStream;
@@ -54,6 +57,21 @@ enum IoLoopMessage {
     SetPubConfirmHandler(Option<CrossbeamSender<Confirm>>),
 }
 
+#[cfg(amiquip_verif)]
+impl IoLoopMessage {
+    fn verif_kind(&self) -> crate::verif::MsgKind {
+        use crate::verif::MsgKind;
+        match self {
+            IoLoopMessage::Send(buf) => MsgKind::Send { len: buf.len() },
+            IoLoopMessage::ConnectionClose(buf) => MsgKind::ConnectionClose { len: buf.len() },
+            IoLoopMessage::SetReturnHandler(h) => MsgKind::SetReturnHandler { some: h.is_some() },
+            IoLoopMessage::SetPubConfirmHandler(h) => {
+                MsgKind::SetPubConfirmHandler { some: h.is_some() }
+            }
+        }
+    }
+}
+
 enum ChannelMessage {
     Method(AMQPClass),
     ConsumeOk(String, CrossbeamReceiver<ConsumerMessage>),
@@ -67,6 +85,8 @@ struct ChannelSlot {
     consumers: HashMap<String, CrossbeamSender<ConsumerMessage>>,
     return_handler: Option<CrossbeamSender<Return>>,
     pub_confirm_handler: Option<CrossbeamSender<Confirm>>,
+    #[cfg(amiquip_verif)]
+    verif: crate::verif::SlotGuard,
 }
 
 impl ChannelSlot {
@@ -91,9 +111,13 @@ impl ChannelSlot {
             consumers: HashMap::new(),
             return_handler: None,
             pub_confirm_handler: None,
+            #[cfg(amiquip_verif)]
+            verif: crate::verif::SlotGuard::new(channel_id, mio_channel_bound),
         };
 
         let loop_handle = IoLoopHandle::new(channel_id, mio_tx, rx);
+        #[cfg(amiquip_verif)]
+        let loop_handle = loop_handle.verif_with_serial(channel_slot.verif.serial);
 
         (channel_slot, loop_handle)
     }
@@ -180,6 +204,8 @@ impl IoLoop {
         let (handshake_done_tx, handshake_done_rx) = crossbeam_channel::bounded(1);
         let (ch0_slot, ch0_handle) = Channel0Slot::new(self.inner.mio_channel_bound);
 
+        #[cfg(amiquip_verif)]
+        crate::verif::point(crate::verif::Point::IoSpawn);
         let join_handle = Builder::new()
             .name("amiquip-io".to_string())
             .spawn(move || self.thread_main(stream, options, handshake_done_tx, ch0_slot, false))
@@ -220,6 +246,8 @@ impl IoLoop {
         join_handle: JoinHandle<Result<()>>,
         handshake_done_rx: CrossbeamReceiver<(usize, FieldTable)>,
     ) -> Result<(JoinHandle<Result<()>>, FieldTable, Channel0Handle)> {
+        #[cfg(amiquip_verif)]
+        crate::verif::before_recv(&handshake_done_rx, crate::verif::RecvKind::HandshakeDone);
         match handshake_done_rx.recv() {
             Ok((frame_max, server_properties)) => Ok((
                 join_handle,
@@ -229,6 +257,8 @@ impl IoLoop {
 
             // If sender was dropped without sending, the I/O thread has failed; peel out
             // its final error.
+            #[cfg(amiquip_verif)]
+            Err(_) if { crate::verif::point(crate::verif::Point::BeforeJoin); false } => unreachable!(),
             Err(_) => match join_handle.join() {
                 Ok(Ok(())) => {
                     unreachable!("I/O thread ended successfully without completing handshake")
@@ -279,6 +309,8 @@ impl IoLoop {
         ch0_slot: Channel0Slot,
         have_written_to_socket: bool,
     ) -> Result<()> {
+        #[cfg(amiquip_verif)]
+        let _verif_guard = crate::verif::IoGuard::new();
         self.poll
             .register(
                 &ch0_slot.common.rx,
@@ -487,6 +519,11 @@ impl IoLoop {
                 Err(TryRecvError::Empty) => return Ok(()),
                 Err(TryRecvError::Disconnected) => return EventLoopClientDroppedSnafu.fail(),
             };
+            #[cfg(amiquip_verif)]
+            crate::verif::point(crate::verif::Point::IoRecv {
+                chan: ch0_slot.common.verif.tag(crate::verif::ChanKind::Blocked),
+                msg: crate::verif::MsgKind::SetBlocked,
+            });
             ch0_slot.blocked_tx = Some(tx);
         }
     }
@@ -548,9 +585,22 @@ impl IoLoop {
         let mut listening_to_channels = true;
         loop {
             let start_poll = Instant::now();
+            #[cfg(amiquip_verif)]
+            let verif_saved = crate::verif::io_gate(
+                &mut self.connection_timeout,
+                self.inner.outbuf.len(),
+                self.inner.are_writes_sealed(),
+                self.inner.chan_slots.iter().count(),
+            );
             self.poll
                 .poll(&mut events, self.connection_timeout)
                 .context(FailedToPollSnafu)?;
+            #[cfg(amiquip_verif)]
+            crate::verif::io_gate_restore(
+                &mut self.connection_timeout,
+                verif_saved,
+                events.iter().count(),
+            );
             if events.is_empty() {
                 if let Some(timeout) = &self.connection_timeout {
                     if start_poll.elapsed() > *timeout {
@@ -766,6 +816,15 @@ impl Inner {
     }
 
     fn process_channel_message(&mut self, channel_id: u16, message: IoLoopMessage) -> Result<()> {
+        #[cfg(amiquip_verif)]
+        crate::verif::point(crate::verif::Point::IoRecv {
+            chan: crate::verif::ChanTag {
+                serial: 0,
+                channel_id,
+                kind: crate::verif::ChanKind::Main,
+            },
+            msg: message.verif_kind(),
+        });
         match message {
             IoLoopMessage::ConnectionClose(buf) => {
                 self.outbuf.append(buf);
@@ -799,6 +858,13 @@ impl Inner {
                 Err(TryRecvError::Empty) => return Ok(()),
                 Err(TryRecvError::Disconnected) => return EventLoopClientDroppedSnafu.fail(),
             };
+            #[cfg(amiquip_verif)]
+            crate::verif::point(crate::verif::Point::IoRecv {
+                chan: ch0_slot.common.verif.tag(crate::verif::ChanKind::Alloc),
+                msg: crate::verif::MsgKind::Alloc {
+                    requested: new_channel_id,
+                },
+            });
 
             let mio_channel_bound = self.mio_channel_bound;
             let channels_are_registered = self.channels_are_registered;
